@@ -82,13 +82,13 @@ def contend_script(rng, np, me, caps, pkind):
 def gen_program(rng, pid, profile):
     pr = PROFILES[profile]
     np = rng.randint(*pr["np"])
-    caps = dict(res=rng.randint(1, 2), pool=rng.randint(1, 3), buf=rng.choice([1, 2, 3]), oq=rng.choice([1, 2, -1]), pq=rng.choice([1, 2, -1]))
+    caps = dict(res=rng.randint(1, 2), pool=rng.randint(1, 3), buf=rng.choice([1, 2, 3, -1]), oq=rng.choice([1, 2, -1]), pq=rng.choice([1, 2, -1]))
     ops = [o for o, w in pr["ops"].items() for _ in range(w)]
     pkind = rng.choice(["res", "res", "pool", "pool", "buf", "oq", "pq"])
     bufunit = 0
     if profile in ("buf", "contend", "mix") and rng.random() < 0.3:
         bufunit = 62                     # amounts in units of 2^62: level + amount reaches 2^64
-        caps["buf"] = rng.choice([2, 3, 3, -1])
+        caps["buf"] = rng.choice([2, 3, 3])      # "unlimited" is 2^64-1: a few units of 2^62 would hit that real limit
     lines = ["prog %d" % pid, "cap res=%d pool=%d buf=%d oq=%d pq=%d bufunit=%d" % (caps["res"], caps["pool"], caps["buf"], caps["oq"], caps["pq"], bufunit)]
     for p in range(1, np + 1):
         n = rng.randint(2, 7)
@@ -135,7 +135,10 @@ def gen_condmany(rng, pid):
     prios = list(range(nw)); rng.shuffle(prios)
     lines = ["prog %d" % pid, "cap res=1 pool=1 buf=2 oq=1 pq=1 bufunit=0"]
     for p in range(1, nw + 1):
-        lines.append("proc %d %d 1 : hold %d ; cwait %d ; hold 1" % (p, prios[p - 1], rng.randint(0, 2), rng.choice([0, 0, 1, 1, 2])))
+        if rng.random() < 0.2:     # a contender for the observed resource itself
+            lines.append("proc %d %d 1 : hold %d ; acq 1 ; hold 1 ; rel 1" % (p, prios[p - 1], rng.randint(0, 2)))
+        else:
+            lines.append("proc %d %d 1 : hold %d ; cwait %d ; hold 1" % (p, prios[p - 1], rng.randint(0, 2), rng.choice([0, 0, 1, 1, 2])))
     sig = ["hold 3"]
     if rng.random() < 0.4: sig = ["csub 0", "acq 1", "hold 3"]
     for _ in range(rng.randint(1, 3)):
